@@ -483,7 +483,7 @@ QUICK += ["details_batch2"]; THOROUGH += ["T_details_batch2"]
 #     (harness/agcread.py; natively replay/src/indep.rs) must recover every sample: directory, params, collection streams, stream
 #     names, packs, raw-group placeholder, reference marker / tuple packing, metadata convention, LZ-diff V2 text.
 from harness.pipe import Pipeline, SPL as _SPL, TWO as _TWO, THREE as _THREE
-from harness.C01 import RICH as _RICH
+from harness.pipe import RICH as _RICH
 
 
 def _fmt(name, threads, samples, **kw):
